@@ -21,9 +21,14 @@ def main():
     ap.add_argument("--list", action="store_true")
     a = ap.parse_args()
     t0 = time.time()
-    try:
-        mod = importlib.import_module(f"contracts.{a.pid}")
-    except ModuleNotFoundError:
+    mods = {}
+    for kind, name in (("main", f"contracts.{a.pid}"), ("shadow", f"contracts.sh_{a.pid}"), ("rtc", f"contracts.rtc_{a.pid}")):
+        try:
+            mods[kind] = importlib.import_module(name)
+        except ModuleNotFoundError as e:
+            if e.name != name and not (kind == "main" and str(e.name).startswith("contracts.")):
+                raise
+    if not mods:
         print(f"no check for {a.pid}", file=sys.stderr)
         return 3
     if a.replay:
@@ -40,7 +45,15 @@ def main():
             return 1
         return 0
     try:
-        units = [u for u in mod.units(a.tier) if a.tier in u.tiers]
+        units, seen = [], set()
+        for kind, fn in (("shadow", "shadow_units"), ("main", "units"), ("rtc", "rtc_units")):
+            m = mods.get(kind)
+            if m is None or not hasattr(m, fn):
+                continue
+            for u in getattr(m, fn)(a.tier):
+                if a.tier in u.tiers and u.name not in seen:
+                    seen.add(u.name)
+                    units.append(u)
         if a.only:
             units = [u for u in units if a.only in u.name]
         if a.list:
@@ -52,7 +65,24 @@ def main():
             return 3
         results = common.run_units(units)
         verdict = common.decide(a.pid, a.tier, results, units)
-        meta = dict(getattr(mod, "META", {}))
+        meta = {"trusted_base": [], "assumptions": [], "functions_under_contract": [], "explanation": ""}
+        for kind, attr in (("shadow", "SH_META"), ("main", "META"), ("rtc", "RTC_META")):
+            mm = getattr(mods.get(kind), attr, None) if mods.get(kind) else None
+            if not mm:
+                continue
+            for k in ("trusted_base", "assumptions", "functions_under_contract"):
+                for x in mm.get(k, []):
+                    if x not in meta[k]:
+                        meta[k].append(x)
+            if mm.get("explanation"):
+                meta["explanation"] += f"[{kind}] {mm['explanation']} "
+            if mm.get("families"):
+                meta["explanation"] += f"[{kind} families] {mm['families']} "
+            for k in ("rule", "level_if_complete"):
+                if k in mm and (k not in meta or kind == "shadow"):
+                    meta[k] = mm[k]
+        if "shadow" not in mods and a.pid != "C17":
+            meta["level_if_complete"] = "other"
         extra = {
             "trusted_base": meta.get("trusted_base", []),
             "assumptions": meta.get("assumptions", []),
